@@ -142,6 +142,14 @@ func planC08sweep(c *Ctx, run int64) *Plan {
 			add("alter", n.Ptr, Op{I: int64(r.IntN(1 << 20))})
 			add("caseflip", n.Ptr, Op{I: int64(r.IntN(1 << 20))})
 			add("append", n.Ptr, Op{S2: Pick(r, []string{"T23:59:59", " ", "0", ".0", "a", "Z", "-", "%"})})
+			if n.Key == "$regime" || n.Key == "country" {
+				// another defined code, including the alternative codes some countries have
+				for _, alt := range []string{"GR", "EL", "GB", "XI", "XU", "ES", "PT"} {
+					if alt != n.V.S {
+						add("setstr", n.Ptr, Op{S2: alt})
+					}
+				}
+			}
 		case 'n':
 			add("alter", n.Ptr, Op{I: 1})
 			add("alter", n.Ptr, Op{I: -1})
